@@ -354,7 +354,6 @@ def predict_eff(ctx):
                 slices.append((n, st))
     # only loads count as "rows used"; a store into a kernel buffer after the kernel ran is
     # a different matter (below)
-    stores = [(n, st) for n, st in slices if isinstance(n.ctx, ast.Store)]
     slices = [(n, st) for n, st in slices if not isinstance(n.ctx, ast.Store)]
     ctx.ob('TAIL-SLICE', len(slices) == 3, None, 'new rows are read from all three buffers', f=f,
            key='three-slices', why='%d buffer slices used to build the new rows' % len(slices))
@@ -413,9 +412,32 @@ def predict_eff(ctx):
             ok = isinstance(v, ast.Call) and f.module.resolve(v.func, f.local_names()) == \
                 'pandas.concat' and v.args and isinstance(v.args[0], (ast.List, ast.Tuple)) \
                 and len(v.args[0].elts) == 2 and \
-                norm_text(v.args[0].elts[0]) == 'self.trajectory' and not v.keywords
-            ctx.ob('TAIL-SLICE', ok, None, 'trajectory <- concat([trajectory, new rows])', f=f,
-                   node=st, key='concat', why='trajectory is updated by `%s`' % norm_text(v))
+                norm_text(v.args[0].elts[0]) == 'self.trajectory'
+            # keywords: the ones that leave "rows appended, time index kept" alone are fine; the
+            # ones that renumber the rows or glue the tables side by side are not; anything else
+            # is not decided here
+            kw_bad = None
+            if ok:
+                for kw in v.keywords:
+                    try:
+                        val = ctx.repo.fold(kw.value, f.module, f.cls)
+                    except ValueError:
+                        val = '?'
+                    harmless = (kw.arg, val) in (('axis', 0), ('ignore_index', False),
+                                                 ('sort', False), ('join', 'outer')) or \
+                        kw.arg in ('copy', 'verify_integrity')
+                    if harmless:
+                        continue
+                    ctx.need((kw.arg, val) in (('ignore_index', True), ('axis', 1),
+                                               ('axis', 'columns'), ('join', 'inner')),
+                             '_integrate: concat keyword %s=%s not decided' % (kw.arg, val))
+                    kw_bad = '%s=%s' % (kw.arg, val)
+            ctx.ob('TAIL-SLICE', ok and kw_bad is None, None,
+                   'trajectory <- concat([trajectory, new rows]), time index kept', f=f,
+                   node=st, key='concat',
+                   why='trajectory is updated by `%s`%s' % (
+                       norm_text(v), (': with %s the rows are not appended under their own time '
+                                      'stamps' % kw_bad) if kw_bad else ''))
     def deref(e):
         # a local bound exactly once stands for its definition
         if isinstance(e, ast.Name):
